@@ -13,6 +13,10 @@ type Op struct {
 	N string `json:"n,omitempty"` // kind / field name
 	S uint64 `json:"s,omitempty"` // seed of the op's private PRNG
 	A int    `json:"a,omitempty"` // count / size hint / mask flag / held index
+	// R: parse: >0 = the frame's transaction id is the process-wide counter's current value plus
+	// R-1 (a reply to a request that was just, or is just being, issued); lookup: >1 = the lookup
+	// is made R times in a row (a long history of one process).
+	R int `json:"r,omitempty"`
 }
 
 // TaskProg is the program of one simulated task.
@@ -133,7 +137,11 @@ func genOp1(r *simrt.RNG, weights []int) Op {
 		}
 		return Op{K: "lib", N: pickKind(r, "lib"), S: r.Uint64()}
 	case 3:
-		return Op{K: "parse", N: pickKind(r, "parse"), S: r.Uint64(), A: []int{0, 64, 300, 2000}[r.Pick(40, 30, 25, 5)]}
+		op := Op{K: "parse", N: pickKind(r, "parse"), S: r.Uint64(), A: []int{0, 64, 300, 2000}[r.Pick(40, 30, 25, 5)]}
+		if r.Chance(0.3) {
+			op.R = 1 + r.Intn(7)
+		}
+		return op
 	case 4:
 		return Op{K: "pkt", N: pickKind(r, "pkt"), S: r.Uint64(), A: []int{0, 100, 600}[r.Intn(3)]}
 	case 5:
@@ -190,6 +198,20 @@ func genFirstUse(r *simrt.RNG, sc *Scenario) {
 	sc.Strategy = genStrategy(r, horizonOf(sc))
 }
 
+// genLookupStorm: two to four tasks, each looking one name up thousands of times: whatever the
+// registry does every so many lookups of the process (rebuild, eviction, statistics roll-over)
+// happens while the other tasks are inside their lookups.
+func genLookupStorm(r *simrt.RNG, sc *Scenario) {
+	sc.Class = "lookup-storm"
+	n := 2 + r.Intn(3)
+	for i := 0; i < n; i++ {
+		e := registry[r.Intn(len(registry))]
+		sc.Tasks = append(sc.Tasks, TaskProg{Ops: []Op{{K: "lookup", N: randomCase(r, e.name), A: r.Intn(2), R: r.Range(2000, 12000)}}})
+	}
+	sc.RefFirst = false
+	sc.Strategy = genStrategy(r, 40000)
+}
+
 func genC14(seed uint64) *Scenario {
 	r := simrt.NewRNG(seed)
 	sc := &Scenario{Property: "C14", RunSeed: seed, Class: "concurrent"}
@@ -200,6 +222,10 @@ func genC14(seed uint64) *Scenario {
 	sc.XidStart = uint32(r.Intn(1 << 30))
 	if r.Chance(0.1) {
 		sc.XidStart = uint32(r.Intn(4)) // the value a fresh process starts from
+	}
+	if r.Chance(1.0 / 40) {
+		genLookupStorm(r, sc)
+		return sc
 	}
 	if r.Chance(0.25) {
 		// homogeneous swarm: every task runs the same kind of operation (own seeds) a few times,
@@ -262,6 +288,10 @@ func genC15(seed uint64) *Scenario {
 	r := simrt.NewRNG(seed)
 	sc := &Scenario{Property: "C15", RunSeed: seed, Class: "concurrent"}
 	sc.XidStart = uint32(r.Intn(1 << 30))
+	if !freshChild && r.Chance(1.0/40) {
+		genLookupStorm(r, sc)
+		return sc
+	}
 	n := []int{2, 3, 4, 8, 16, 32}[r.Pick(25, 25, 20, 15, 10, 5)]
 	sc.Tasks = make([]TaskProg, n)
 	// every registered name in both mask modes, dealt to the tasks in shuffled order
